@@ -1,40 +1,99 @@
 (** C05 -- LEF write-then-read returns the library that was written.
 
-    Model: Lef/LefParse.v ([parse]), Lef/LefWrite.v ([write_lib]); [lef_eq] (Lef/LefCheck.v): structural
-    equality, decimals compared numerically. *)
+    Model: Lef/LefLex.v, Lef/LefParse.v ([parse]), Lef/LefWrite.v ([write_lib]); [cfg_fixed] = the repaired code,
+    the flags of [cfg] = the defects found; [lef_eq] (Lef/LefCheck.v): structural equality, decimals compared
+    numerically (rust_decimal's PartialEq). The libraries are those the reader returns on valid UTF-8 texts (a Rust
+    `&str` is valid UTF-8 by construction). Proofs: Lef/LefW*_proofs.v (writer side), Lef/LefI*_proofs.v (image of
+    the reader), Lef/LefRt*_proofs.v (reading a token sequence in general form, shared with C04). *)
+From Coq Require Import String.
 From Coq Require Import ZArith List Bool.
 From L21 Require Import Lef.LefDec Lef.LefData Lef.LefLex Lef.LefParse Lef.LefWrite Lef.LefSpec Lef.LefCheck
-                        Lef.LefWrite_proofs.
+                        Lef.LefLex_proofs Lef.LefRtLex_proofs Lef.LefWFrame_proofs Lef.LefWDec_proofs
+                        Lef.LefIFrame_proofs Lef.LefILex_proofs Lef.LefWrite_proofs.
 Import ListNotations.
 Local Open Scope Z_scope.
 
-(** The property, for the reader and writer [cf]: every library the reader can produce is written, and the
-    text is read back as an equal library. *)
+(** * The property *)
+(** for the reader and writer [cf]: every library the reader can produce is written, and the text is read back
+    as an equal library *)
 Definition C05_write_read_stmt (cf : cfg) : Prop :=
-  forall src l, parse cf src = Ok l ->
+  forall src l, utf8_valid src -> parse cf src = Ok l ->
     exists t l', write_lib cf l = Ok t /\ parse cf t = Ok l' /\ lef_eq l l' = true.
 
-Lemma C05_refute (cf : cfg) (src : bytes) : write_read_ok cf src = Some false -> ~ C05_write_read_stmt cf.
+(** The repaired code has the property. *)
+Theorem C05_write_read : C05_write_read_stmt cfg_fixed.
+Proof. exact LefW_write_read. Qed.
+
+(** * Its two halves *)
+(** the image of the reader: names are name tokens, string literals are terminated, decimals are well formed,
+    polygons have three points, version-dependent statements agree with the version, ... ([lib_wr]) *)
+Theorem C05_reader_image : forall src l, U8 src -> parse cfg_fixed src = Ok l -> lib_wr l.
+Proof. exact LefW_parse_image. Qed.
+(** such a library is written, and the text is read back *)
+Theorem C05_writer_reads_back : forall l, lib_wr l ->
+  exists t l', write_lib cfg_fixed l = Ok t /\ parse cfg_fixed t = Ok l' /\ lef_eq l l' = true.
+Proof. exact LefW_write_read_wr. Qed.
+(** the image of the lexer: every token but an unterminated final string literal is lexed again as itself *)
+Theorem C05_lex_image : forall src tis e, U8 src -> lex false src = (tis, e) ->
+  exists a, Forall2 (sees_tok src) tis a /\ good a.
+Proof. exact lex_image. Qed.
+(** `Display` then `from_str` of a decimal *)
+Theorem C05_display_parses : forall d, dec_wf d ->
+  dec_of_bytes (dec_to_bytes d) = DOk (mkdec (d_neg d && negb (d_mant d =? 0)) (d_mant d) (d_scale d)).
+Proof. exact display_parses. Qed.
+
+(** * The code as found (one defect at a time) does not have the property *)
+Lemma C05_refute (cf : cfg) (src : bytes) : utf8_valid src -> write_read_ok cf src = Some false -> ~ C05_write_read_stmt cf.
 Proof.
-  unfold write_read_ok. intros R H. destruct (parse cf src) as [l| | | |] eqn:Hp; try discriminate.
-  destruct (H src l Hp) as [t [l' [Hw [Hr He]]]]. rewrite Hw, Hr, He in R. discriminate.
+  unfold write_read_ok. intros V R H. destruct (parse cf src) as [l| | | |] eqn:Hp; try discriminate.
+  destruct (H src l V Hp) as [t [l' [Hw [Hr He]]]]. rewrite Hw, Hr, He in R. discriminate.
 Qed.
-
-(** The code as found (one defect at a time) does not have the property. *)
 Theorem C05_w_site_orig_refuted : ~ C05_write_read_stmt cfg_only_w_site_orig.
-Proof. exact (C05_refute _ _ (proj1 LefW_site_orig_refuted)). Qed.
+Proof. apply (C05_refute _ LefW_src_site); [vm_compute; reflexivity | exact (proj1 LefW_site_orig_refuted)]. Qed.
 Theorem C05_nowire_ungated_orig_refuted : ~ C05_write_read_stmt cfg_only_nowire_ungated.
-Proof. exact (C05_refute _ _ (proj1 LefW_nowire_ungated_refuted)). Qed.
+Proof. apply (C05_refute _ LefW_src_nowire); [vm_compute; reflexivity | exact (proj1 LefW_nowire_ungated_refuted)]. Qed.
 Theorem C05_w_prop_nosemi_orig_refuted : ~ C05_write_read_stmt cfg_only_w_prop_nosemi.
-Proof. exact (C05_refute _ _ (proj1 LefW_prop_nosemi_refuted)). Qed.
+Proof. apply (C05_refute _ LefW_src_prop); [vm_compute; reflexivity | exact (proj1 LefW_prop_nosemi_refuted)]. Qed.
 Theorem C05_version_repeat_orig_refuted : ~ C05_write_read_stmt cfg_only_version_repeat.
-Proof. exact (C05_refute _ _ (proj1 LefW_version_repeat_refuted)). Qed.
+Proof. apply (C05_refute _ LefW_src_version_ncs); [vm_compute; reflexivity | exact (proj1 LefW_version_repeat_refuted)]. Qed.
 
+(** * Non-vacuity: a text with non-ASCII names, a comment, exponent numbers, a site, a via, a macro with pin, port,
+      obstruction, properties and density, and an extension is read; its library is written and read back *)
+Definition C05_ex_src : bytes :=
+  bs "VERSION 5.4 ; NAMESCASESENSITIVE ON ; BUSBITCHARS ""[]"" ; UNITS DATABASE MICRONS 2e3 ; END UNITS # c
+SITE s CLASS CORE ; SIZE 0.46 BY 2.72 ; END s VIA v DEFAULT RESISTANCE 1.50 ; LAYER m1 ; RECT MASK 1 -.5 0 5. 1 ; END v
+MACRO m CLASS CORE TIEHIGH ; SOURCE USER ; FOREIGN f 0 0 FN ; SIZE 1E1 BY 2.0 ; PROPERTY p ""a b"" q 007 ;
+ PIN a DIRECTION OUTPUT TRISTATE ; antennagatearea 1.5 LAYER m1 ; NETEXPR ""n e"" ;
+  PORT CLASS CORE ; LAYER m1 EXCEPTPGNET SPACING 0.1 ; WIDTH 0.14 ; POLYGON ITERATE 0 0 1 0 1 1 DO 2 BY 3 STEP 4 5 ; VIA 0 0 v ; END
+ END a OBS LAYER m2 ; PATH 0 0 1 1 ; END DENSITY LAYER m1 ; RECT 0 0 1 1 50 ; END END m
+BEGINEXT ""t"" x 1.5 ; ""q r"" ENDEXT END LIBRARY" ++ [32; 195; 169].
+Example C05_write_read_nonvacuous :
+  utf8_valid C05_ex_src /\ write_read_ok cfg_fixed C05_ex_src = Some true
+  /\ write_read_ok (mkcfg false false false false false true true false) C05_ex_src = Some false   (* the writer as found *)
+  /\ match parse cfg_fixed C05_ex_src with
+     | Ok l => (List.length (lib_macros l), List.length (lib_vias l), List.length (lib_sites l), List.length (lib_extensions l)) = (1, 1, 1, 1)%nat
+     | _ => False
+     end.
+Proof. vm_compute. repeat split; reflexivity. Qed.
+
+Check C05_write_read : forall src l, utf8_valid src -> parse cfg_fixed src = Ok l ->
+  exists t l', write_lib cfg_fixed l = Ok t /\ parse cfg_fixed t = Ok l' /\ lef_eq l l' = true.
+Check C05_reader_image : forall src l, U8 src -> parse cfg_fixed src = Ok l -> lib_wr l.
+Check C05_writer_reads_back : forall l, lib_wr l ->
+  exists t l', write_lib cfg_fixed l = Ok t /\ parse cfg_fixed t = Ok l' /\ lef_eq l l' = true.
+Check C05_lex_image : forall src tis e, U8 src -> lex false src = (tis, e) -> exists a, Forall2 (sees_tok src) tis a /\ good a.
+Check C05_display_parses : forall d, dec_wf d ->
+  dec_of_bytes (dec_to_bytes d) = DOk (mkdec (d_neg d && negb (d_mant d =? 0)) (d_mant d) (d_scale d)).
 Check C05_w_site_orig_refuted : ~ C05_write_read_stmt cfg_only_w_site_orig.
 Check C05_nowire_ungated_orig_refuted : ~ C05_write_read_stmt cfg_only_nowire_ungated.
 Check C05_w_prop_nosemi_orig_refuted : ~ C05_write_read_stmt cfg_only_w_prop_nosemi.
 Check C05_version_repeat_orig_refuted : ~ C05_write_read_stmt cfg_only_version_repeat.
 
+Print Assumptions C05_write_read.
+Print Assumptions C05_reader_image.
+Print Assumptions C05_writer_reads_back.
+Print Assumptions C05_lex_image.
+Print Assumptions C05_display_parses.
 Print Assumptions C05_w_site_orig_refuted.
 Print Assumptions C05_nowire_ungated_orig_refuted.
 Print Assumptions C05_w_prop_nosemi_orig_refuted.
